@@ -1215,6 +1215,9 @@ where
                     });""", new="""                    _ = reload_config(client_server_map.clone()).await;
 
                     get_config().show();"""),
+    dict(id="c03-copyfail-arm-lost", prop="C03", file="src/client.rs", expect="C03-R10",
+         what="CopyFail no longer has an arm in the transaction loop (falls into `_ =>`, never forwarded)",
+         old="""                    'c' | 'f' => {""", new="""                    'c' => {"""),
     # ------------------------------------------------------------------ C17
     dict(id="c17-shutdown-checked-in-transaction", prop="C17", file="src/client.rs", expect="C17-R1",
          what="the transaction loop also reacts to the shutdown broadcast",
